@@ -433,6 +433,11 @@ var rbp = map[int]int{
 
 const rbpProjectionStop = 10
 
+// rbpRHS is the binding power with which every projection right-hand side is
+// parsed: the property states that it extends over all following selectors
+// until a pipe, a lower-precedence operator, a flatten or a closing bracket.
+const rbpRHS = rbpProjectionStop - 1
+
 type rparser struct {
 	toks []rtoken
 	pos  int
@@ -546,7 +551,7 @@ func (p *rparser) nud(t rtoken) *rnode {
 		if p.cur().typ == rtRbracket {
 			right = &rnode{kind: rnIdentity}
 		} else {
-			right = p.projectionRHS(rbp[rtStar])
+			right = p.projectionRHS(rbpRHS)
 		}
 		return &rnode{kind: rnValueProjection, kids: []*rnode{left, right}}
 	case rtFilter:
@@ -581,7 +586,7 @@ func (p *rparser) nud(t rtoken) *rnode {
 		if c.typ == rtStar && p.la(1).typ == rtRbracket {
 			p.advance()
 			p.advance()
-			right := p.projectionRHS(rbp[rtStar])
+			right := p.projectionRHS(rbpRHS)
 			return &rnode{kind: rnProjection, kids: []*rnode{{kind: rnIdentity}, right}}
 		}
 		return p.multiList()
@@ -597,7 +602,7 @@ func (p *rparser) led(t rtoken, left *rnode) *rnode {
 			return &rnode{kind: rnSub, kids: []*rnode{left, right}}
 		}
 		p.advance()
-		right := p.projectionRHS(rbp[rtDot])
+		right := p.projectionRHS(rbpRHS)
 		return &rnode{kind: rnValueProjection, kids: []*rnode{left, right}}
 	case rtPipe:
 		right := p.expression(rbp[rtPipe])
@@ -655,12 +660,12 @@ func (p *rparser) led(t rtoken, left *rnode) *rnode {
 		if p.cur().typ == rtFlatten {
 			right = &rnode{kind: rnIdentity}
 		} else {
-			right = p.projectionRHS(rbp[rtFilter])
+			right = p.projectionRHS(rbpRHS)
 		}
 		return &rnode{kind: rnFilterProjection, kids: []*rnode{left, right, cond}}
 	case rtFlatten:
 		l := &rnode{kind: rnFlatten, kids: []*rnode{left}}
-		right := p.projectionRHS(rbp[rtFlatten])
+		right := p.projectionRHS(rbpRHS)
 		return &rnode{kind: rnProjection, kids: []*rnode{l, right}}
 	case rtLbracket:
 		c := p.cur()
@@ -671,7 +676,7 @@ func (p *rparser) led(t rtoken, left *rnode) *rnode {
 		if !p.match(rtStar) || !p.match(rtRbracket) {
 			return p.fail(ecSyntax)
 		}
-		right := p.projectionRHS(rbp[rtStar])
+		right := p.projectionRHS(rbpRHS)
 		return &rnode{kind: rnProjection, kids: []*rnode{left, right}}
 	}
 	return p.fail(ecSyntax)
@@ -680,7 +685,7 @@ func (p *rparser) led(t rtoken, left *rnode) *rnode {
 func (p *rparser) projectIfSlice(left, right *rnode) *rnode {
 	ie := &rnode{kind: rnIndexExpr, kids: []*rnode{left, right}}
 	if right.kind == rnSlice {
-		rhs := p.projectionRHS(rbp[rtStar])
+		rhs := p.projectionRHS(rbpRHS)
 		return &rnode{kind: rnProjection, str: "slice", kids: []*rnode{ie, rhs}}
 	}
 	return ie
